@@ -5,6 +5,7 @@ import (
 	"verif/fw"
 
 	_ "verif/harness/c01"
+	_ "verif/harness/c02"
 	_ "verif/harness/c06"
 	_ "verif/harness/c07"
 )
